@@ -209,8 +209,12 @@ pub fn gen_world(seed: u64) -> C13World {
         for k in 0..ndeps {
             let field = format!("d{k}");
             match r.below(8) {
-                0 => deps.push(Dep { field, kind: DepKind::ImportStr, spelling: spell(r, "t.txt", dir, &jdirs, &copies), line: 0, col: 0 }),
-                1 => deps.push(Dep { field, kind: DepKind::ImportBin, spelling: spell(r, "u.bin", dir, &jdirs, &copies), line: 0, col: 0 }),
+                0 | 1 => {
+                    // both kinds on both data files: the same file is often read as text and as bytes
+                    let kind = if r.chance(1, 2) { DepKind::ImportStr } else { DepKind::ImportBin };
+                    let name = if r.chance(1, 2) { "t.txt" } else { "u.bin" };
+                    deps.push(Dep { field, kind, spelling: spell(r, name, dir, &jdirs, &copies), line: 0, col: 0 })
+                }
                 2 => deps.push(Dep { field, kind: DepKind::ImportStr, spelling: spell(r, NAMES[NAMES.len() - 1], dir, &jdirs, &copies), line: 0, col: 0 }),
                 3 if is_main && ext_var.is_some() => deps.push(Dep { field, kind: DepKind::Ext(ext_var.as_ref().unwrap().0.clone()), spelling: String::new(), line: 0, col: 0 }),
                 _ => {
